@@ -349,7 +349,78 @@ func TestVerifReplay(t *testing.T) {
 }
 '''
 
+ROUTETAB = '''package routetab_test
+
+import (
+	"bytes"
+	"context"
+	"fmt"
+	"testing"
+
+	"github.com/gauss-project/aurorafs/pkg/boson/test"
+	"github.com/gauss-project/aurorafs/pkg/p2p"
+	"github.com/gauss-project/aurorafs/pkg/p2p/protobuf"
+	"github.com/gauss-project/aurorafs/pkg/routetab/pb"
+)
+''' + STREAM + '''
+func TestVerifReplay(t *testing.T) {
+	// node0 -- node1 ; the messages come from node1 and are served by node0
+	nodes := createTopology(t, 2)
+	server, remote := nodes[0], nodes[1]
+	spec := server.Protocol()
+	ctx := context.Background()
+	big := bytes.Repeat([]byte{0xee}, 70000)
+	goodPath := func() *pb.Path { return &pb.Path{Sign: []byte{1}, Bodys: [][]byte{{1}}, Items: [][]byte{remote.overlay.Bytes()}} }
+
+	req := verifHandler(t, spec, "onRouteReq")
+	for _, alpha := range []int32{0, 1, 2, 1000, -1, -2, -1 << 31} {
+		m := &pb.RouteReq{Dest: test.RandomAddress().Bytes(), Alpha: alpha, Paths: []*pb.Path{goodPath()}}
+		if verifGuard(t, fmt.Sprintf("route request for an unknown destination with Alpha=%d", alpha), func() { _ = req(ctx, remote.peer, verifStreamOf(t, m)) }) { return }
+	}
+	for what, m := range map[string]*pb.RouteReq{
+		"an empty route request":                    {},
+		"a route request without paths":             {Dest: test.RandomAddress().Bytes(), Alpha: 2},
+		"a route request with an empty path":        {Dest: test.RandomAddress().Bytes(), Alpha: 2, Paths: []*pb.Path{{}}},
+		"a route request with empty path items":     {Dest: test.RandomAddress().Bytes(), Alpha: 2, Paths: []*pb.Path{{Items: [][]byte{{}, {}}}}},
+		"a route request with oversized fields":     {Dest: big, Alpha: 2, Paths: []*pb.Path{{Sign: big, Bodys: [][]byte{big}, Items: [][]byte{big, big}}}},
+		"a route request with empty underlay records": {Dest: test.RandomAddress().Bytes(), Alpha: 2, Paths: []*pb.Path{goodPath()}, UType: 1, UList: []*pb.UnderlayResp{{}, {Dest: big, Underlay: big, Signature: big}}},
+		"a route request for the node itself":       {Dest: server.overlay.Bytes(), Alpha: -5, Paths: []*pb.Path{goodPath()}, UType: 7},
+		"a route request for the sender":            {Dest: remote.overlay.Bytes(), Alpha: -5, Paths: []*pb.Path{goodPath()}, UType: -1},
+	} {
+		if verifGuard(t, what, func() { _ = req(ctx, remote.peer, verifStreamOf(t, m)) }) { return }
+	}
+	resp := verifHandler(t, spec, "onRouteResp")
+	for what, m := range map[string]*pb.RouteResp{
+		"an empty route response":                     {},
+		"a route response with an empty path":         {Dest: test.RandomAddress().Bytes(), Paths: []*pb.Path{{}}},
+		"a route response with a one-hop path":        {Dest: test.RandomAddress().Bytes(), Paths: []*pb.Path{goodPath()}},
+		"a route response with oversized fields":      {Dest: big, Paths: []*pb.Path{{Sign: big, Bodys: [][]byte{big}, Items: [][]byte{big, big, big}}}, UType: 1, UList: []*pb.UnderlayResp{{Dest: big, Underlay: big, Signature: big}}},
+		"a route response with empty underlay records": {Dest: test.RandomAddress().Bytes(), Paths: []*pb.Path{{Items: [][]byte{test.RandomAddress().Bytes(), remote.overlay.Bytes()}}}, UType: 1, UList: []*pb.UnderlayResp{{}}},
+	} {
+		if verifGuard(t, what, func() { _ = resp(ctx, remote.peer, verifStreamOf(t, m)) }) { return }
+	}
+	und := verifHandler(t, spec, "onFindUnderlay")
+	for what, m := range map[string]*pb.UnderlayReq{
+		"an empty underlay request":     {},
+		"an oversized underlay request": {Dest: big},
+		"an underlay request for the sender": {Dest: remote.overlay.Bytes()},
+	} {
+		if verifGuard(t, what, func() { _ = und(ctx, remote.peer, verifStreamOf(t, m)) }) { return }
+	}
+	chain := verifHandler(t, spec, "relayConnChain")
+	for what, m := range map[string]*pb.RouteRelayReq{
+		"an empty relay request":                       {},
+		"a relay request for the node with no mode":    {Dest: server.overlay.Bytes(), Src: remote.overlay.Bytes()},
+		"a relay request with oversized fields":        {Dest: big, Src: big, SrcMode: big, ProtocolName: big, ProtocolVersion: big, StreamName: big, Paths: [][]byte{big, {}}},
+	} {
+		if verifGuard(t, what, func() { _ = chain(ctx, remote.peer, verifStreamOf(t, m)) }) { return }
+	}
+	t.Logf("not reproduced")
+}
+'''
+
 PLANS = {
+    "routetab": {"pkg": "pkg/routetab", "pkgname": "routetab_test", "test": ROUTETAB, "tags": "leveldb", "mask_all_tests": False, "confirm_on": ["panic: "]},
     "chunkinfo": {"pkg": "pkg/chunkinfo", "pkgname": "chunkinfo_test", "test": CHUNKINFO, "confirm_on": ["panic: "]},
     "handshake":{"pkg": "pkg/p2p/libp2p/internal/handshake", "pkgname": "handshake_test", "test": HANDSHAKE, "mask_all_tests": False},
     "trafficprotocol": {"pkg": "pkg/settlement/traffic", "pkgname": "traffic", "test": TRAFFIC},
